@@ -1052,7 +1052,11 @@ func (s *Sim) heal() {
 			break
 		}
 	}
-	if s.stop || s.model == nil || len(s.env.Pubs) == 0 {
+	if s.stop || len(s.env.Pubs) == 0 {
+		return
+	}
+	if s.model == nil {
+		s.healConcurrent(i)
 		return
 	}
 	s.res.Count("heal_reached", 1)
@@ -1111,7 +1115,94 @@ func (s *Sim) heal() {
 	}
 }
 
+// healConcurrent: after a concurrent run has quiesced and every call has
+// completed, stream accounting must be back to zero on every channel (C02): with
+// a small watermark exactly watermark x channels held calls fit without growth
+// and without being told to wait; a leaked or lost count breaks that.
+//
 //go:norace
+//go:norace
+func (s *Sim) healConcurrent(i int) {
+	c := s.plan.Cfg
+	if !s.plan.Legal || c.NilCfg || c.NilPool || c.WM == 0 || c.WM > 3 {
+		return
+	}
+	var pool []*FakeSC
+	for _, sc := range s.env.Conns {
+		if sc.Removed || sc.ShutdownSent {
+			continue
+		}
+		if sc.Truth != connectivity.Ready {
+			return // a connection could not be healed (no Connect requested): nothing to judge
+		}
+		pool = append(pool, sc)
+	}
+	// replacement connections of unfinished refreshes are not pool channels
+	n := 0
+	for _, sc := range pool {
+		if sc.CreatedPhase != PhDone {
+			n++
+		}
+	}
+	for _, sc := range pool {
+		if sc.CreatedPhase == PhDone {
+			return // a refresh happened: channel/connection mapping is not tracked in concurrent mode
+		}
+	}
+	if n == 0 || n > 5 {
+		return
+	}
+	max := int(c.Max)
+	if max == 0 {
+		max = 4
+	}
+	total := int(c.WM) * n
+	counts := map[int]int{}
+	var held []*Call
+	for j := 0; j < total && !s.stop; j++ {
+		p := s.probeCallNoModel(i, MPlain)
+		held = append(held, p)
+		if s.stop {
+			return
+		}
+		if p.Res.Kind != ResPlaced {
+			s.vio("C02", "residual-stream-count", "concurrent", fmt.Sprintf("after a concurrent run with every call completed, held probe call %d of %d (watermark %d x %d channels) was not placed (%s): some channel still counts active streams", j+1, total, c.WM, n, p.Res))
+			s.stop = true
+			break
+		}
+		counts[p.Res.Conn]++
+		if counts[p.Res.Conn] > int(c.WM) && n < max {
+			s.vio("C02", "negative-stream-count", "concurrent", fmt.Sprintf("after a concurrent run with every call completed, sc%d accepted %d held calls with watermark %d while the pool could still grow: its count went negative", p.Res.Conn, counts[p.Res.Conn], c.WM))
+			s.stop = true
+			break
+		}
+	}
+	if !s.stop {
+		s.res.Count("heal_concurrent_fill_probe_done", 1)
+	}
+	for _, p := range held {
+		if p.InFlight {
+			s.finishCall(i, p, OutAppErr, nil)
+			s.k.Quiesce()
+			s.afterOp()
+		}
+	}
+}
+
+//go:norace
+func (s *Sim) probeCallNoModel(i int, method int) *Call {
+	c := &Call{ID: len(s.calls), Op: i, Method: method, MethodName: methodNames[method], PubIdx: -1}
+	c.req = buildMsg(0, nil)
+	c.reply = &Msg{}
+	c.ctx, c.cancel = context.WithCancel(context.Background())
+	c.tag = &TaskTag{Op: i, Phase: PhPick, Call: c.ID}
+	s.calls = append(s.calls, c)
+	c.task = s.k.Spawn(fmt.Sprintf("probe%d", c.ID), 0, c.tag, func() { s.callBody(c) })
+	s.k.Quiesce()
+	s.afterOp()
+	return c
+}
+
 func (s *Sim) probeCall(i int, method int, keys []string) *Call {
 	c := &Call{ID: len(s.calls), Op: i, Method: method, MethodName: methodNames[method], PubIdx: -1, ReqKeys: keys}
 	c.req = buildMsg(s.plan.Cfg.Locator%len(locators), keys)
